@@ -84,6 +84,9 @@ def battery(root, groups=GROUPS, reverse=False):
             qs.append(('parent_stmt', lambda: pid(f.parent_stmt())))
             qs.append(('parent_block', lambda: pid(f.parent_block())))
             qs.append(('parent_scope', lambda: pid(f.parent_scope())))
+            qs.append(('parent_more', lambda: (pid(f.parent_stmtlike()), pid(f.parent_named_scope()), pid(f.parent_non_expr()),
+                                               pid(f.parent_pattern()), pid(f.parent_ftstr()), pid(f.last_header_child()),
+                                               tuple(pid(x) for x in f.parents()), pid(f.repath()), f.is_alive)))
         if 'views' in groups:
             a = f.a
             for field, typ, card in O.GRAMMAR.get(a.__class__.__name__, ()):
